@@ -6,7 +6,8 @@ pub fn run(ctx: &Ctx) -> &'static str {
     ctx.assume("cooperative receiver model written from the protocol docs: REG1 -> REG2(id = sender half + receiver half), REG2(known id) -> REG3, REG2(unknown) -> REG_NGP (or REG_ERR), keepalive echo for members, SRTLA ACK every 10 data packets per link, cumulative SRT ACK every 200 ms; per-link round-trip delay");
     ctx.assume("'heard nothing' = no non-registration datagram (or REG3) delivered to the link for its current timeout (the value the link itself holds); a REG_ERR delivered on the link and an injected socket send failure are accepted teardown causes");
     ctx.assume("'forever' and 'within 30 s' are checked as bounded safety over the simulated horizon: while down, the gap between attempts never exceeds 120 s + a housekeeping period; recovery is required once no fault is scheduled for the link any more and the receiver holds the id the sender adopted");
-    ctx.assume("link 0 never has a fault (survivors exist); when every uplink is down for > 10 s production exits, the simulated run ends there");
+    ctx.assume("link 0 has no fault except in the total-outage runs (every uplink black-holed over the same period); when every uplink has been down for > 10 s handle_housekeeping reports an error, the real loop logs it and goes on, and so does the simulation");
+    ctx.assume("a receiver without the group answers REG_NGP: the sender must then create a new group within timeout + 30 s; a receiver that refuses with REG_ERR can only be retried (a new group is started on REG_NGP only, as in the reference implementation), no recovery is demanded while it refuses");
     for (file, body) in ctx.replay_files() {
         if !ctx.replay_case::<faultsim::Case, _>("fault-schedules", &file, &body, |c, o| faultsim::check(c, o, Which::C08, ctx)) {
             eprintln!("replay {}: unknown part", file.display());
